@@ -43,7 +43,7 @@ impl Item {
     /// (e.g. "no size in effect" for a stream without marker).
     pub fn build(&self, k: OptKind) -> Option<Built> {
         let mut p = self.prog.clone();
-        if self.marker {
+        if self.marker && !matches!(p.last(), Some(Sym::EL(_))) {
             p.push(Sym::E);
         }
         let e = enc::encode(self.lc, self.lp, self.pb, self.dict.max(4096) as u64, &p);
@@ -167,6 +167,67 @@ pub fn adversarial_program(reps: usize) -> (Vec<Sym>, usize) {
     p.push(Sym::M(192 + 16 * 2 + 15 + 1, 273));
     p.push(Sym::L(0x01));
     (p, first)
+}
+
+/// Adversarially trained END MARKER (the longest symbol the format has: 26 direct distance bits on top of the coded
+/// ones): every adaptive probability on its path that training can reach is driven to the opposite rail first - the
+/// align tree, the two top nodes of the distance-slot tree (the second needs matches at distances >= 64 KiB), the length
+/// coder for length 273, is_rep and is_match of state 0 - then `pad` cheap literals move the coder's range, and the
+/// stream ends with a marker of length 273. lc = lp = pb = 0. Returns (program incl. the marker, index of the marker).
+pub fn adversarial_marker_program(reps: usize, pad: usize) -> (Vec<Sym>, usize) {
+    let mut p: Vec<Sym> = Vec::new();
+    for i in 0..420u32 {
+        p.push(Sym::L((i * 7 + 1) as u8));
+    }
+    // more than 64 KiB of history, cheaply
+    for _ in 0..250 {
+        p.push(Sym::M(1, 273));
+    }
+    let rep = |p: &mut Vec<Sym>, s: Sym| {
+        for _ in 0..reps {
+            p.push(s);
+        }
+    };
+    // slot tree (len_state 3), second node on the path 11....: opposite bit = slots 32..47 = distances from 64 KiB
+    rep(&mut p, Sym::M(65536 + 1, 18));
+    // align tree of 1111: nodes 15, 7, 3, 1 get the opposite bit (slot 15 carries align bits)
+    for v in [7u32, 3, 1, 0] {
+        rep(&mut p, Sym::M(192 + 16 + v + 1, 18));
+    }
+    // slot tree root -> 0 (and the length coder): length 273's high tree, deepest node first; slot 16 matches
+    for hs in [254u32, 252, 248, 240, 224, 192, 128, 0] {
+        rep(&mut p, Sym::M(289, hs + 18));
+    }
+    rep(&mut p, Sym::M(289, 10)); // choice2 -> 0
+    rep(&mut p, Sym::M(289, 5)); // choice -> 0
+    // is_rep[state 0] -> 1
+    for _ in 0..reps {
+        p.extend([Sym::L(1), Sym::L(2), Sym::L(3), Sym::R(0, 2)]);
+    }
+    // is_match[state 0] -> 0, and the padding
+    rep(&mut p, Sym::L(0x55));
+    for _ in 0..pad {
+        p.push(Sym::L(0x55));
+    }
+    let first = p.len();
+    p.push(Sym::EL(273));
+    (p, first)
+}
+
+/// `adversarial_marker_program` with the padding (0..120 literals) that makes the marker longest; (program, index of
+/// the marker, input bytes the marker takes).
+pub fn adversarial_marker_best(reps: usize) -> (Vec<Sym>, usize, usize) {
+    let mut best = (0usize, 0usize);
+    for pad in 0..120usize {
+        let (p, first) = adversarial_marker_program(reps, pad);
+        let e = enc::encode(0, 0, 0, 1 << 20, &p);
+        let last = e.payload.len() - e.table[first - 1].0;
+        if last > best.0 {
+            best = (last, pad);
+        }
+    }
+    let (p, first) = adversarial_marker_program(reps, best.1);
+    (p, first, best.0)
 }
 
 pub fn valid_items(seed: u64, big: bool) -> Vec<Item> {
